@@ -131,6 +131,11 @@ def correspondence(ctx):
                  "io (oracle only): both loaders on a nonexistent path, a directory, an empty file, a blank file, a dangling symlink, a symlink to "
                  "a directory, a path below a regular file: an error and no object claimed as loaded; both Dump methods to a path in a nonexistent "
                  "directory, a directory, a path below a regular file: an error; to a writable path: nil and the file loads back. "
+                 "rule-keyword-fold: every keyword position of every rule shape, in steps and inspections, with one letter replaced by each code "
+                 "point that strings.EqualFold takes for the letter but strings.ToLower does not map to it (computed in the harness: U+017F for s) "
+                 "-> refused; ASCII upper / lower / mixed twins -> accepted. key-tables-sharing-id: one key id in two or three of keys / rootcas / "
+                 "intermediatecas, the malformed entry (private part, scheme of another type, empty keyval, keyid field differing from the map key) "
+                 "in each position -> refused, all well-formed -> accepted; in memory (40 calls) and after Dump + LoadMetadata (40 calls). "
                  "non-trivial = every case (each has a non-empty document or metadata); distinct = distinct input JSON")
     _fuzz(ctx, corr)
     return corr
